@@ -4,7 +4,8 @@
 
    An instant is [d, s]: days since 1970-01-01 and second of the day (TLC integers are 32-bit;
    seconds since the epoch would overflow in 2038).  Text is a sequence of ASCII codes.
-   Scope: years 1970..9999 (proleptic Gregorian calendar, UTC, no leap seconds - as datetime). *)
+   Scope: years 1..9999 (proleptic Gregorian calendar, UTC, no leap seconds - as datetime); days before
+   1970-01-01 are negative.                                                                  *)
 EXTENDS Integers, Sequences
 
 IsLeap(y) == (y % 4 = 0 /\ y % 100 # 0) \/ y % 400 = 0
